@@ -1,6 +1,6 @@
 (* Proofs about Model/MapResume.v (C06): the selection of a fixed_indices request is the product of the
    per-axis selections; partitions of the index space; what one run on an existing store computes. *)
-From Verif Require Import Base.Prelude Base.StrUtil Base.Index Base.NdArr Base.PyRange Base.StrOrd
+From Verif Require Import Base.Prelude Base.StrUtil Base.Index Base.NdArr Base.PyRange Base.StrSeq
   Model.MapSpec Model.MapSpecSpec Model.MapRun
   Proofs.IndexFacts Proofs.StrFacts Proofs.MapSpecFacts Proofs.PyRangeFacts.
 From Verif Require Import Model.MapResume Model.FixedSpec.
